@@ -260,6 +260,11 @@ func cmdCheck(prop, tier string) int {
 			for _, a := range c.Assumed {
 				assumptions = append(assumptions, "assumed in contract of "+k+": "+a)
 			}
+			for _, en := range c.Ensures {
+				if clauseHasTag(en, "assumed") {
+					assumptions = append(assumptions, "postcondition of "+k+" ASSUMED, not proved: "+en.Src)
+				}
+			}
 		}
 	}
 	assumptions = append(assumptions, extraAssumptions(prop)...)
